@@ -27,14 +27,16 @@ type c17case struct {
 	N      int     `json:"files"`
 	Edges  [][]int `json:"imports"` // Edges[i] = files imported by file i (in order; may repeat)
 	Root   int     `json:"root"`
-	DirImp []int   `json:"dir_importers"` // files that also import the directory "lib"
+	DirImp []int   `json:"dir_importers"`      // files that also import the directory "lib"
 	LibSib bool    `json:"lib_sibling_import"` // lib/l100.yaml also imports its sibling lib/l101.yaml (which sorts later)
-	LibImp int     `json:"lib_imports"`   // file imported by lib/l100.yaml (the first file of the directory), -1 = none
-	Break  int     `json:"break"`         // index of a file made missing/broken (-1 none); -2 = a file of the directory
-	How    string  `json:"how"`           // missing | syntax | wrongtype
+	LibImp int     `json:"lib_imports"`        // file imported by lib/l100.yaml (the first file of the directory), -1 = none
+	Break  int     `json:"break"`              // index of a file made missing/broken (-1 none); -2 = a file of the directory
+	How    string  `json:"how"`                // missing | syntax | wrongtype
 	// LibExplicit: every importer of the directory "lib" also imports, by name and after the directory, files of
 	// that directory the directory import does not pick up (lib/extra.json, lib/more.toml)
 	LibExplicit bool `json:"lib_files_also_imported_by_name,omitempty"`
+	// LibFileFirst: every importer of the directory names its first file (lib/l100.yaml) in front of the directory
+	LibFileFirst bool `json:"file_of_the_directory_imported_first,omitempty"`
 	// CaseTwin: the root also imports two files whose names differ only in letter case
 	CaseTwin bool `json:"names_differing_in_case_only,omitempty"`
 }
@@ -75,6 +77,9 @@ func runC17(c *h.Ctx, idx int, cs c17case) {
 			imps = append(imps, relPath(c17path(i), c17path(j)))
 		}
 		if usesDir[i] {
+			if cs.LibFileFirst {
+				imps = append(imps, relPath(c17path(i), "lib/l100.yaml"))
+			}
 			imps = append(imps, relPath(c17path(i), "lib"))
 			if cs.LibExplicit {
 				imps = append(imps, relPath(c17path(i), "lib/extra.json"), relPath(c17path(i), "lib/more.toml"))
@@ -366,6 +371,8 @@ func c17(c *h.Ctx) {
 	// a file of the directory imports a sibling that sorts later in the same directory
 	cases = append(cases, c17case{N: 1, Edges: [][]int{{}}, Root: 0, DirImp: []int{0}, Break: -1, LibImp: -1, LibSib: true})
 	cases = append(cases, c17case{N: 2, Edges: [][]int{{1}, {}}, Root: 0, DirImp: []int{1}, Break: -1, LibImp: 0, LibSib: true})
+	cases = append(cases, c17case{N: 1, Edges: [][]int{{}}, Root: 0, DirImp: []int{0}, Break: -1, LibImp: -1, LibFileFirst: true})
+	cases = append(cases, c17case{N: 2, Edges: [][]int{{1}, {}}, Root: 0, DirImp: []int{1, 0}, Break: -1, LibImp: -1, LibFileFirst: true, LibSib: true})
 	cases = append(cases, c17case{N: 1, Edges: [][]int{{}}, Root: 0, DirImp: []int{0}, Break: -1, LibImp: -1, LibExplicit: true})
 	cases = append(cases, c17case{N: 2, Edges: [][]int{{1}, {}}, Root: 0, DirImp: []int{1}, Break: -1, LibImp: -1, LibExplicit: true, CaseTwin: true})
 	cases = append(cases, c17case{N: 2, Edges: [][]int{{1}, {0}}, Root: 1, Break: -1, LibImp: -1, CaseTwin: true})
@@ -393,6 +400,7 @@ func c17(c *h.Ctx) {
 				cs.DirImp = append(cs.DirImp, rnd.Intn(n))
 			}
 			cs.LibExplicit = rnd.Chance(40)
+			cs.LibFileFirst = rnd.Chance(35)
 		}
 		cs.CaseTwin = rnd.Chance(20)
 		if rnd.Chance(30) {
@@ -404,6 +412,53 @@ func c17(c *h.Ctx) {
 	c.Extra("exhaustive_subspace", fmt.Sprintf("all import graphs on <=3 files x every root = %d cases", exhaustiveN))
 	h.Par(len(cases), 16, func(i int) { runC17(c, i, cases[i]) })
 	h.Par(16, 16, func(m int) { c17global(c, m, m) })
+	c17discovered(c)
+}
+
+// c17discovered: the project file is found by default discovery (no -c), $HOME has a global configuration, and one
+// entry of the project's own import list is missing / broken: the load fails - the global configuration alone is
+// not "the configuration".
+func c17discovered(c *h.Ctx) {
+	kinds := []string{"missing-file", "missing-directory", "syntax", "wrongtype", "nested-missing"}
+	names := []string{"tasks.yaml", "taskctl.yaml"}
+	h.Par(len(kinds)*len(names), 8, func(i int) {
+		kind, name := kinds[i%len(kinds)], names[i/len(kinds)]
+		dir := caseDir(c, fmt.Sprintf("c17d.%d", i))
+		defer os.RemoveAll(dir)
+		real, _ := filepath.EvalSymlinks(dir)
+		home, proj := real+"/home", real+"/proj"
+		h.WriteFile(home+"/.taskctl/config.yaml", "tasks:\n  global-task:\n    command: [\"true\"]\n")
+		h.WriteFile(proj+"/inc/ok.yaml", "tasks:\n  ok-task:\n    command: [\"true\"]\n")
+		imp := "inc/missing.yaml"
+		switch kind {
+		case "missing-directory":
+			imp = "no-such-dir"
+		case "syntax":
+			imp = "inc/bad.yaml"
+			h.WriteFile(proj+"/inc/bad.yaml", "tasks: [unclosed\n")
+		case "wrongtype":
+			imp = "inc/bad.yaml"
+			h.WriteFile(proj+"/inc/bad.yaml", "tasks: 5\n")
+		case "nested-missing":
+			imp = "inc/mid.yaml"
+			h.WriteFile(proj+"/inc/mid.yaml", "import: [\"gone.yaml\"]\ntasks:\n  mid-task:\n    command: [\"true\"]\n")
+		}
+		h.WriteFile(proj+"/"+name, "import: [\"inc/ok.yaml\", \""+imp+"\"]\ntasks:\n  project-task:\n    command: [\"true\"]\n")
+		for _, argv := range [][]string{{"list"}, {"-o", "raw", "global-task"}} {
+			res := tc{Dir: proj, Home: home, Timeout: 15 * time.Second}.run(c, argv...)
+			c.Eval(1)
+			cas := map[string]interface{}{"project_file": name, "broken_import": kind, "argv": argv, "exit": res.Exit, "stdout": clip(string(res.Stdout), 400), "stderr": clip(stripANSI(string(res.Stderr)), 400)}
+			if crashed, how := res.Crashed(); crashed {
+				c.Violate("cli-crash/"+h.TopFrame(string(res.Stderr)), "taskctl died: "+how, cas)
+				return
+			}
+			if res.Exit == 0 {
+				c.Violate("broken-import-accepted/"+kind+"/discovered-project-file", fmt.Sprintf("`taskctl %s` in a project whose %s imports a %s entry exits 0 (the project file was dropped, the global configuration used alone)", strings.Join(argv, " "), name, kind), cas)
+			}
+		}
+		c.Count("discovered_project_cases", 1)
+		c.Nontrivial("discovered" + kind + name)
+	})
 }
 
 func init() { checks["C17"] = checkDef{"exploration", c17} }
